@@ -487,7 +487,7 @@ class Interp:
         if isinstance(op, (ast.In, ast.NotIn)):
             res = l in r
             return res if isinstance(op, ast.In) else not res
-        if isinstance(l, (Opaque, BV)) or isinstance(r, (Opaque, BV)):
+        if isinstance(l, (Opaque, BV)) or isinstance(r, (Opaque, BV)) or type(l).__module__.startswith("sa.") or type(r).__module__.startswith("sa."):
             f = self.prims.get("__compare__")
             if f is not None:
                 return f(type(op).__name__, l, r)
